@@ -142,6 +142,14 @@ pub fn run(case: &u8, ctx: &mut CaseCtx) -> Result<(), Fail> {
                 ctx.nontrivial = true;
                 return fail(K4, format!("{hid} was created at sequence 2 and classified secret at sequence 3; the reader's FIND(?c.name) WHERE {{ ?c CONCEPT {{}} }} answers {now} now and {then} AS OF SEQ 2"));
             }
+            // the direct loads at the same coordinate (by id; a filter / projection over a bound id)
+            for q in ["FIND(?c.name) WHERE { ?c CONCEPT {id: :id} } AS OF SEQ 2", "FIND(?c.id, ?c.name) WHERE { ?c CONCEPT {id: :id} FILTER(?c.name != \"zz\") } AS OF SEQ 2"] {
+                let a = h(ask(&env, q, json!({"id": hid})))?;
+                if a.to_string().contains("hidden later") {
+                    ctx.nontrivial = true;
+                    return fail(K4, format!("{hid} was created at sequence 2 and classified secret at sequence 3; the reader's direct load `{q}` answers {a}"));
+                }
+            }
             Ok(())
         }
         5 => {
